@@ -506,6 +506,285 @@ def strip_deadline(norm_text, what):
     return " ".join(t[i:])
 
 
+# ---- Semaphore::wait(int64): the sem_timedwait retry loop and the ENOSYS polling loop ------------------------------
+# Additional subset: `errno == EINTR | ENOSYS`, `continue`, `goto L` / label `L:` at the top level, `usleep(<constant>)`,
+# and ONE counted loop `for(int i = A; i < timeout; i += B)` whose variable is used nowhere else: its test is symbolic, so
+# the library code after a call is a small decision tree: (counter op?, if i < timeout then .. else ..).
+class SemParser(Parser):
+    SEM_CALLS = {"sem_timedwait": ("semTimedWait", r"\( sem_t \* \) data , & ts"), "sem_trywait": ("semTryWait", r"\( sem_t \* \) data")}
+
+    def __init__(self, text, what, param="timeout"):
+        super().__init__(text, what)
+        self.param = param
+        self.labels = set()
+
+    def call(self):
+        name = self.take()
+        if name not in self.SEM_CALLS:
+            raise CfgErr(f"{self.what}: call of {name} is not in the translated subset")
+        self.take("(")
+        depth, args = 1, []
+        while depth:
+            x = self.take()
+            depth += {"(": 1, ")": -1}.get(x, 0)
+            if depth:
+                args.append(x)
+        if not re.fullmatch(self.SEM_CALLS[name][1], " ".join(args)):
+            raise CfgErr(f"{self.what}: unexpected arguments of {name}: {' '.join(args)}")
+        return self.SEM_CALLS[name][0]
+
+    def callcmp(self):
+        c = self.call()
+        op = self.take()
+        if op not in ("==", "!="):
+            raise CfgErr(f"{self.what}: result of {c} is not compared with == / !=")
+        self.take("-"); self.take("1")
+        return ("callcmp", c, op == "!=")
+
+    def cond(self):
+        if self.peek() in self.SEM_CALLS:
+            return self.callcmp()
+        if self.peek() == "errno":
+            self.take()
+            op = self.take()
+            v = self.take()
+            if op not in ("==", "!=") or v not in ("EINTR", "ENOSYS"):
+                raise CfgErr(f"{self.what}: errno test not in the translated subset")
+            e = ("errno", v)
+            return e if op == "==" else ("not", e)
+        return self.bexpr()
+
+    def const(self, stop):
+        toks = []
+        while self.peek() not in stop:
+            x = self.take()
+            if not re.fullmatch(r"\d+|[*+()]", x):
+                raise CfgErr(f"{self.what}: {x!r} in a constant expression")
+            toks.append(x)
+        try:
+            v = eval("".join(toks), {"__builtins__": {}}, {})
+        except Exception:
+            raise CfgErr(f"{self.what}: bad constant expression {' '.join(toks)}")
+        if not isinstance(v, int) or v < 0 or v >= 2 ** 31:
+            raise CfgErr(f"{self.what}: constant out of range")
+        return v
+
+    def stmt(self):
+        x = self.peek()
+        if x == "goto":
+            self.take()
+            l = self.take(); self.take(";")
+            return ("goto", l)
+        if x == "usleep":
+            self.take(); self.take("(")
+            depth, toks = 1, []
+            while depth:
+                y = self.take()
+                depth += {"(": 1, ")": -1}.get(y, 0)
+                if depth:
+                    toks.append(y)
+            self.take(";")
+            sub = SemParser(" ".join(toks) + " ;", self.what)
+            return ("bare", ("usleep", sub.const((";",))))
+        if x == "for" and self.peek(2) == "int":
+            self.take(); self.take("("); self.take("int")
+            v = self.take(); self.take("=")
+            a = self.const((";",)); self.take(";")
+            if self.take() != v:
+                raise CfgErr(f"{self.what}: loop test is not on the loop variable")
+            self.take("<"); self.take(self.param); self.take(";")
+            if self.take() != v:
+                raise CfgErr(f"{self.what}: loop step is not on the loop variable")
+            self.take("+"); self.take("=")
+            b = self.const((")",)); self.take(")")
+            body = self.stmt()
+            if v in self.t[self.i:] or self.t[:self.i].count(v) != 3:
+                raise CfgErr(f"{self.what}: the loop variable {v} is used outside the loop head")
+            return ("cfor", a, b, body)
+        if x == "if":
+            self.take(); self.take("(")
+            c = self.cond()
+            self.take(")")
+            a = self.stmt()
+            b = None
+            if self.peek() == "else":
+                self.take()
+                b = self.stmt()
+            return ("if", c, a, b)
+        if re.fullmatch(r"[A-Za-z_]\w*", x or "") and self.peek(1) == ":" and x not in ("default", "case"):
+            self.take(); self.take(":")
+            self.labels.add(x)
+            return ("label", x)
+        return super().stmt()
+
+
+class SemRun(Run):
+    """results are decision trees:  leaf = ("call", c, use, cont, env, ctr) | ("ret", v, ctr);  ("iflt", ctr, then, else)
+    where ctr = None | ("init", a) | ("add", b): the counter operation performed before the leaf / the test"""
+
+    def __init__(self, what, top):
+        super().__init__(what)
+        self.top = top           # the top-level statement tuple (targets of goto)
+
+    def ev(self, e, env, flag):
+        if e[0] == "errno":
+            return env.get("errno") == e[1]
+        return super().ev(e, env, flag)
+
+    def run(self, cont, env, flag, ctr=None):
+        env = dict(env)
+        todo = None
+        for _ in range(2000):
+            if todo is None:
+                if not cont:
+                    return ("ret", None, ctr)
+                f = cont[0]
+                if f[0] == "seq":
+                    _, stmts, idx = f
+                    if idx >= len(stmts):
+                        cont = cont[1:]
+                        continue
+                    todo = stmts[idx]
+                    cont = (("seq", stmts, idx + 1),) + cont[1:]
+                elif f[0] == "cforstep":          # end of the body of the counted loop: i += B; test
+                    if ctr is not None:
+                        raise CfgErr(f"{self.what}: two counter operations between POSIX calls")
+                    loop = f[1]
+                    return ("iflt", ("add", loop[2]), self.run((("seq", (loop[3],), 0),) + cont, env, flag), self.run(cont[1:], env, flag))
+                else:
+                    loop = f[1]
+                    if loop[1] is None or self.ev(loop[1], env, flag):
+                        todo = loop[2]
+                    else:
+                        cont = cont[1:]
+                    continue
+            s, todo = todo, None
+            k = s[0]
+            if k == "block":
+                cont = (("seq", s[1], 0),) + cont
+            elif k == "label":
+                pass
+            elif k == "goto":
+                idx = [i for i, st in enumerate(self.top) if st == ("label", s[1])]
+                if len(idx) != 1:
+                    raise CfgErr(f"{self.what}: goto {s[1]}: no single top-level label")
+                cont = (("seq", self.top, idx[0] + 1),)
+            elif k == "cfor":
+                if ctr is not None:
+                    raise CfgErr(f"{self.what}: two counter operations between POSIX calls")
+                c2 = (("cforstep", s),) + cont
+                return ("iflt", ("init", s[1]), self.run((("seq", (s[3],), 0),) + c2, env, flag), self.run(cont, env, flag))
+            elif k == "if":
+                c = s[1]
+                if c[0] == "callcmp":
+                    return ("call", c[1], ("if", c[2], s[2], s[3]), cont, env, ctr)
+                todo = s[2] if self.ev(c, env, flag) else s[3]
+            elif k == "loop":
+                cont = (("loop", s),) + cont
+            elif k in ("break", "continue"):
+                for i, f in enumerate(cont):
+                    if f[0] in ("loop", "cforstep"):
+                        cont = cont[i + 1:] if k == "break" else cont[i:]
+                        break
+                else:
+                    raise CfgErr(f"{self.what}: {k} outside a loop")
+            elif k == "return":
+                if s[1] is None:
+                    return ("ret", None, ctr)
+                if s[1][0] == "callcmp":
+                    return ("call", s[1][1], ("ret", s[1][2]), cont, env, ctr)
+                return ("ret", self.ev(s[1], env, flag), ctr)
+            elif k == "verify":
+                return ("call", s[1][1], ("verify", s[1][2]), cont, env, ctr)
+            elif k == "bare":
+                return ("call", s[1], ("bare",), cont, env, ctr)
+            elif k == "assign" and s[1] != "signaled":
+                env[s[1]] = self.ev(s[2], env, flag)
+            else:
+                raise CfgErr(f"{self.what}: statement {k} is not in the subset of Semaphore::wait(int64)")
+        raise CfgErr(f"{self.what}: library code loops without a POSIX call")
+
+    def resume(self, use, cont, env, outcome):
+        """outcome = "ok" | "EINTR" | "ENOSYS" | "other" """
+        env = dict(env)
+        env["errno"] = None if outcome == "ok" else outcome
+        ok = outcome == "ok"
+        k = use[0]
+        if k == "bare":
+            return self.run(cont, env, False) if ok else None
+        truth = use[1] if ok else not use[1]
+        if k == "verify":
+            return None if not truth else self.run(cont, env, False)
+        if k == "ret":
+            return ("ret", truth, None)
+        br = use[2] if truth else use[3]
+        return self.run(((("seq", (br,), 0),) if br is not None else ()) + cont, env, False)
+
+
+def sem_table(text, what, param):
+    """(entry tree, nodes [(call, {outcome: tree | None})]); tree = ("node", n) | ("ret", bool) | ("iflt", thn, els), each with a counter op"""
+    p = SemParser(text, what, param)
+    ast = p.body()
+    r = SemRun(what, ast[1])
+    keys, nodes, pending = {}, [], []
+
+    def conv(res):
+        if res is None:
+            return None
+        if res[0] == "iflt":
+            a, b = conv(res[2]), conv(res[3])
+            if a is None or b is None or a[0] is not None or b[0] is not None:
+                raise CfgErr(f"{what}: counter operation / trap inside a branch of the loop test")
+            return (res[1], ("iflt", a[1], b[1]))
+        if res[0] == "ret":
+            if res[1] is None:
+                raise CfgErr(f"{what}: falls off the end of a bool function")
+            return (res[2], ("ret", res[1]))
+        _, c, use, cont, env, ctr = res
+        k = (c, use, cont, tuple(sorted((a, b) for a, b in env.items() if a != "errno")))
+        if k not in keys:
+            keys[k] = len(nodes)
+            nodes.append([c, None])
+            pending.append(res)
+            if len(nodes) > 20:
+                raise CfgErr(f"{what}: more than 20 program points")
+        return (ctr, ("node", keys[k]))
+
+    entry = conv(r.run((("seq", (ast,), 0),), {}, False))
+    i = 0
+    while i < len(pending):
+        _, c, use, cont, env, _ = pending[i]
+        outs = ("ok",) if isinstance(c, tuple) else ("ok", "EINTR", "ENOSYS", "other")
+        nodes[i][1] = {o: conv(r.resume(use, cont, env, o)) for o in outs}
+        i += 1
+    return entry, nodes
+
+
+def lean_ptree(t):
+    if t[0] == "node":
+        return f"(.node {t[1]})"
+    if t[0] == "ret":
+        return f"(.ret {'true' if t[1] else 'false'})"
+    return f"(.ifLess {lean_ptree(t[1])} {lean_ptree(t[2])})"
+
+
+def lean_pedge(e):
+    if e is None:
+        return "none"
+    ctr, t = e
+    c = "none" if ctr is None else f"(some (.{ctr[0]} {ctr[1]}))"
+    return f"(some ⟨{c}, {lean_ptree(t)}⟩)"
+
+
+def lean_sem_fn(name, doc, tab):
+    entry, nodes = tab
+    rows = []
+    for c, es in nodes:
+        call = f"(.usleep {c[1]})" if isinstance(c, tuple) else "." + c
+        rows.append(f"    ⟨{call}, {lean_pedge(es.get('ok'))}, {lean_pedge(es.get('EINTR'))}, {lean_pedge(es.get('ENOSYS'))}, {lean_pedge(es.get('other'))}⟩")
+    return f"/-- {doc} -/\ndef {name} : PollFn :=\n  ⟨{lean_pedge(entry)}, [\n" + ",\n".join(rows) + "]⟩\n"
+
+
 def lean_edge(e):
     if e is None:
         return "none"
